@@ -184,6 +184,7 @@ def run(ctx):
 
 
 def _scope_rule(ctx):
+    _forward_refs(ctx)
     """name resolution must search the innermost scope first (locals shadow
     module-level names) and define into the innermost scope"""
     import ast as _a
@@ -198,3 +199,28 @@ def _scope_rule(ctx):
     st = [x for x in _w(df) if isinstance(x, _a.Assign) and "value_map" in _n(x.targets[0])]
     ok = bool(st) and _n(st[0].targets[0]).startswith("self.scopes[-1].value_map[")
     ctx.ob(rid, "ppci/irutils/reader.py:Reader.define_value", "a new value is defined in the innermost scope", ok, construct="define-innermost")
+
+
+def _forward_refs(ctx):
+    """forward references: one placeholder per undefined name, patched when the definition is parsed"""
+    import ast as _a
+    from ..core import norm as _n, walk_no_nested as _w, last_name as _l
+    from ..shapes import get_or_create
+    R = "ppci/irutils/reader.py"
+    rid = "C15.R10"
+    ctx.rule(rid, "forward references: every use of a not yet defined name gets the ONE placeholder registered for that name, and the definition replaces that placeholder everywhere", floor=5)
+    fv = ctx.fn(R, "Reader.find_value")
+    g = get_or_create(fv, lambda c: _n(c.func) == "ir.Undefined")
+    ctx.need(g is not None, "find_value: creation of the ir.Undefined placeholder not found")
+    site = R + ":Reader.find_value"
+    ctx.ob(rid, site, "a placeholder is created only when none is registered for the name", g["guarded"], construct="create-only-if-absent", node=g["node"], detail="form %s on %s[%s]" % (g["form"], g["registry"], g["key"]))
+    ctx.ob(rid, site, "the new placeholder is registered under the name", g["stored"] or g["form"] == "setdefault-discarded", construct="registered", node=g["node"])
+    ctx.ob(rid, site, "a second use of the name returns the registered placeholder (a private copy would never be patched)", g["reused"], construct="registered-one-reused", node=g["node"])
+    rets = [r for r in _w(fv) if isinstance(r, _a.Return) and r.value is not None]
+    ctx.ob(rid, site, "the value returned is the variable holding the found/registered value", len(rets) == 1 and _n(rets[0].value) == g["var"], construct="returns-it")
+    dv = ctx.fn(R, "Reader.define_value")
+    site = R + ":Reader.define_value"
+    pops = [n for n in _a.walk(dv) if isinstance(n, _a.Assign) and isinstance(n.value, _a.Call) and _l(n.value) in ("pop", "get", "__getitem__") and g["registry"] and _n(n.value.func.value) == g["registry"]]
+    rep = [c for c in _a.walk(dv) if isinstance(c, _a.Call) and _l(c) == "replace_by"]
+    ok = len(pops) == 1 and len(rep) == 1 and _n(rep[0].func.value) == _n(pops[0].targets[0]) and _n(rep[0].args[0]) == dv.args.args[1].arg and _l(pops[0].value) == "pop"
+    ctx.ob(rid, site, "defining a name takes its placeholder out of the registry and replaces all its uses by the real value", ok, construct="patch-on-define")
